@@ -4,10 +4,13 @@ Property theorems only.  Implementation model: FlexModel/Ldm/Filter.lean (repair
 TinyDB.search, LDMService.query / order_search_results); specification: FlexModel/Ldm/Query.lean;
 lemmas: FlexModel/Ldm/QueryLemmas.lean.  Last section (round 4): histories made by several THREADS on the in-memory
 back-end, FlexModel/Ldm/QueryConc.lean over the generic scheduler FlexModel/Conc/Sched.lean, lock sections read from the
-source (Generated/LdmSections.lean).
+source (Generated/LdmSections.lean).  Round 5: the TinyDB class under threads (`tinyUnits`, same obligation), and histories
+of add / update / removal by value / removal by id on BOTH back-ends (FlexModel/Ldm/QueryBackends.lean): the TinyDB table is
+the JSON image of the in-memory table after every history, equal objects stored several times included.
 -/
 import FlexModel.Ldm.QueryLemmas
 import FlexModel.Ldm.QueryConc
+import FlexModel.Ldm.QueryBackends
 import Generated.LdmSections
 
 namespace Props.C13
@@ -363,6 +366,81 @@ theorem split_remove_loses_update :
     lookup (blockOf (1, .update 1 21) (blockOf (0, .remove 20) demoSt)).db.rows 1 = some 21 ∧
     lookup (blockOf (0, .remove 20) (blockOf (1, .update 1 21) demoSt)).db.rows 1 = some 21 := by decide
 
+/-- **tinydb_methods_single_section** (round 5; regenerated obligation, `Generated.LdmSections.tinyUnits`: the same `ast`
+pass over tinydb_database.py, class TinyDB): each of insert / update / remove / remove_by_id / all / search is exactly ONE
+`with self._lock` section that contains every use of the tinydb handle `self.database`.  The handle's JSON storage shares
+one file object between reads and writes and rewrites the file in place (write, then truncate), so a `search` that reads
+outside the section can see a half-written file; taking the search out of the lock re-opens this. -/
+theorem tinydb_methods_single_section : Atomic Generated.LdmSections.tinyUnits := by decide
+
+/-- **tinydb_concurrent_history_is_sequential** — the same linearisation for the calls on the TinyDB back-end (the table
+`Db V` holds the stored documents, the allocator the next document id): any number of threads, any lists of calls, ANY
+schedule - the table, the ids and every call's result are those of the calls executed one after the other, every
+thread's own order kept.  (`update` of an id that is not stored is outside: the real TinyDB raises KeyError there, IF.LDM.3
+checks `exists` first.) -/
+theorem tinydb_concurrent_history_is_sequential {V : Type} [DecidableEq V] (s0 : St V) (threads : List (List (Call V)))
+    (sched : List ThreadId) :
+    ∃ tr : List (ThreadId × (St V → St V)),
+      (run (sys Generated.LdmSections.tinyUnits s0 threads) sched).sh = applyAll tr s0 ∧
+      (∀ u, ∃ rest, tracedBy u tr ++ rest = (threads.getD u []).map blockOf) ∧
+      (finished (run (sys Generated.LdmSections.tinyUnits s0 threads) sched) = true →
+        ∀ u, tracedBy u tr = (threads.getD u []).map blockOf) :=
+  db_linearizable _ tinydb_methods_single_section s0 threads sched
+
 end Conc
+
+/-! ## the same objects for the same history of operations - on both back-ends (round 5)
+
+A history = the operations LDMMaintenance issues on its back-end: add, update of a stored id, removal BY VALUE
+(`del_provider_data(container)`: the first stored container equal to the argument), removal by id.  The TinyDB class
+stores JSON images under document ids that are the in-memory ids + 1. -/
+section History
+open FlexModel.Ldm.Backends FlexModel.Ldm.QueryConc
+
+/-- **same_history_same_objects** — after EVERY history (any length, any operations, equal objects stored any number of
+times, removals by value of stored / updated / absent objects) the objects the TinyDB back-end holds are, in store order,
+the JSON images of the objects the in-memory back-end holds.  `P` delimits the objects of the history; the only
+hypothesis is that the image does not identify two different ones of them. -/
+theorem same_history_same_objects {V : Type} [DecidableEq V] (img : V → V) (P : V → Prop)
+    (hinj : ∀ a b, P a → P b → img a = img b → a = b) (ops : List (HOp V)) (hops : ∀ op ∈ ops, ∀ v, op.value? = some v → P v) :
+    Db.objs (tinyRun false img { rows := [], next := 1 } (ops.map (HOp.shift 1)))
+      = (Db.objs (dictRun { rows := [], next := 0 } ops)).map img :=
+  image_objs 1 img _ _ (tiny_history_image 1 img P hinj ops hops _ _ (image_empty img) (by simp)).1
+
+/-- **same_history_same_answers** — hence a request evaluated on the TinyDB back-end after a history selects exactly
+what the TinyDB search model selects from the in-memory store of the same history (`tinySearch` = the selection on the
+JSON images, which `backends_agree_mod_json` relates to the in-memory answer). -/
+theorem same_history_same_answers (P : Record → Prop) (hinj : ∀ a b, P a → P b → a.round = b.round → a = b)
+    (ops : List (HOp Record)) (hops : ∀ op ∈ ops, ∀ v, op.value? = some v → P v)
+    (types : List Nat) (f : Option Filter) (hwf : ∀ g, f = some g → WFFilter g) :
+    select (Db.objs (tinyRun false Record.round { rows := [], next := 1 } (ops.map (HOp.shift 1)))) types f
+      = tinySearch (Db.objs (dictRun { rows := [], next := 0 } ops)) types f := by
+  rw [same_history_same_objects Record.round P hinj ops hops, tiny_backend_exact _ types f hwf]
+
+/-- corollary for JSON-stable objects (no tuples: the image is the identity): literally the same stored objects -/
+theorem same_history_same_objects_json_stable (ops : List (HOp Record))
+    (hst : ∀ op ∈ ops, ∀ v, op.value? = some v → noTuple v.obj = true) :
+    Db.objs (tinyRun false Record.round { rows := [], next := 1 } (ops.map (HOp.shift 1)))
+      = Db.objs (dictRun { rows := [], next := 0 } ops) := by
+  have hid : ∀ r : Record, noTuple r.obj = true → r.round = r := by
+    intro r h
+    simp [Record.round, jsonRound_id r.obj h]
+  rw [same_history_same_objects Record.round (fun r => noTuple r.obj = true)
+    (fun a b ha hb e => by rw [hid a ha, hid b hb] at e; exact e) ops hst]
+  apply round_id_of_stable
+  intro r hr
+  obtain ⟨x, hx, rfl⟩ := List.mem_map.mp hr
+  exact (tiny_history_image 1 Record.round (fun r => noTuple r.obj = true)
+    (fun a b ha hb e => by rw [hid a ha, hid b hb] at e; exact e) ops hst _ _ (image_empty Record.round) (by simp)).2 x hx
+
+/-- non-vacuity and witness: a container stored twice (the same message delivered twice), then ONE removal by value.
+Both back-ends keep one copy; a TinyDB `remove` that collects the ids of ALL equal documents and removes them keeps
+none - the back-ends then answer every request the object matches differently. -/
+theorem remove_all_copies_differs :
+    Db.objs (dictRun { rows := [], next := 0 } dupHistory) = [10, 20, 30] ∧
+    Db.objs (tinyRun false id { rows := [], next := 1 } (dupHistory.map (HOp.shift 1))) = [10, 20, 30] ∧
+    Db.objs (tinyRun true id { rows := [], next := 1 } (dupHistory.map (HOp.shift 1))) = [10, 30] := by decide
+
+end History
 
 end Props.C13
